@@ -245,6 +245,17 @@ class MiniEval:
       return list(v.children)
     if isinstance(v, (list, tuple, set, frozenset, dict, str, range)):
       return list(v)
+    if isinstance(v, ClassInfo) and self.ix.is_enum(v):
+      # members in definition order; a member whose value repeats an earlier one is an alias and is not iterated
+      out, seen_vals = [], []
+      for m_ in self._enum_table(v, None).values():
+        if isinstance(m_.value, Sym):
+          raise NotConst("iteration over an enumeration with opaque values")
+        if any(type(x_) is type(m_.value) and x_ == m_.value for x_ in seen_vals):
+          continue
+        seen_vals.append(m_.value)
+        out.append(m_)
+      return out
     raise NotConst(f"iteration over {type(v).__name__}")
 
   def bind(self, t, v, env, f, depth):
@@ -272,6 +283,8 @@ class MiniEval:
         base.fields[t.attr] = v
       elif isinstance(base, dict) and base.get("__record__"):
         base[t.attr] = v
+      elif isinstance(base, EnumMember):
+        self.__dict__.setdefault("_enum_inst", {}).setdefault((base.cls, base.name), {})[t.attr] = v
       else:
         raise NotConst("attribute store")
     else:
@@ -287,7 +300,7 @@ class MiniEval:
       if isinstance(op, ast.Mult):
         return a * b
       if isinstance(op, ast.Div):
-        return Fraction(a) / Fraction(b) if isinstance(a, (int, Fraction)) and isinstance(b, (int, Fraction)) and not isinstance(a, bool) else a / b
+        return a / b          # as Python does: int / int is a float, Fraction / int a Fraction
       if isinstance(op, ast.FloorDiv):
         return a // b
       if isinstance(op, ast.Mod):
@@ -333,11 +346,44 @@ class MiniEval:
         return r
       if isinstance(r, FuncInfo):
         return ("closure", r, {})
+      if isinstance(r, tuple) and r and r[0] == "assign" and isinstance(r[2], ast.Call) and unparse(r[2].func) == "re.compile" and len(r[2].args) >= 1:
+        # NAME = re.compile(<constant expression of the module>, flags?)
+        import re as _re
+        try:
+          pat_ = self.ce.ev(r[1], r[2].args[0], None)
+          flags_ = 0
+          for fl_ in list(r[2].args[1:]) + [k_.value for k_ in r[2].keywords if k_.arg == "flags"]:
+            for nm_ in unparse(fl_).replace("re.", "").split("|"):
+              flags_ |= getattr(_re, nm_.strip())
+        except (NotConst, AttributeError):
+          pat_ = None
+        if isinstance(pat_, str):
+          try:
+            return _re.compile(pat_, flags_)
+          except _re.error:
+            raise Raised()
       if e.id in ("None", "True", "False"):
         return {"None": None, "True": True, "False": False}[e.id]
       try:
         return self.ce.ev(f.module, e, f.cls)
       except NotConst:
+        # a module-level table whose rows hold lambdas / references to functions: built here, once, in module context
+        if isinstance(r, tuple) and r and r[0] == "assign" and isinstance(r[2], (ast.Tuple, ast.List, ast.Dict, ast.ListComp, ast.DictComp)) and depth < self.MAX_DEPTH:
+          cache = self.__dict__.setdefault("_module_tables", {})
+          key = (r[1].name, e.id)
+          if key not in cache:
+            anyf = next(iter(self.ix.funcs_in(r[1].name)), None)
+            if anyf is None:
+              raise NotConst(f"name {e.id}")
+            ctxf = anyf
+            while ctxf.cls is not None or getattr(ctxf, "outer_func", None) is not None:
+              nxt = next((g for g in self.ix.funcs_in(r[1].name) if g.cls is None and getattr(g, "outer_func", None) is None), None)
+              if nxt is None:
+                break
+              ctxf = nxt
+              break
+            cache[key] = self.ev(r[2], {}, ctxf, depth + 1)
+          return cache[key]
         raise NotConst(f"name {e.id}")
     if isinstance(e, (ast.Tuple, ast.List)):
       vals = []
@@ -394,6 +440,11 @@ class MiniEval:
           return base[sl]
         raise NotConst("slice")
       key = self.ev(e.slice, env, f, depth)
+      if isinstance(base, ClassInfo) and self.ix.is_enum(base) and isinstance(key, str):
+        tbl = self._enum_table(base, f)
+        if key in tbl:
+          return tbl[key]
+        raise Raised()
       if isinstance(base, (list, tuple, str, dict)):
         try:
           return base[key]
@@ -462,6 +513,54 @@ class MiniEval:
       fi = FuncInfo("<lambda>", f"{f.qualname}.<lambda>", f.module, ast.FunctionDef(name="<lambda>", args=e.args, body=[ast.Return(value=e.body)], decorator_list=[], lineno=e.lineno), f.cls, f)
       return ("closure", fi, env)
     raise NotConst(type(e).__name__)
+
+  def _enum_table(self, ci, f):
+    """name -> member of an Enum class of the package (aliases included), in definition order."""
+    out = {}
+    for name, expr in self.ix.enum_members(ci):
+      try:
+        val = self.ce.ev(ci.module, expr, ci)
+      except NotConst:
+        val = Sym(unparse(expr))
+      out[name] = EnumMember(ci.qualname, name, val)
+    return out
+
+  def _enum_fields(self, member, depth=0):
+    """the instance fields an enumeration's __init__ gives a member (run once per member on its value tuple)"""
+    cache = self.__dict__.setdefault("_enum_inst", {})
+    key = (member.cls, member.name)
+    if key in cache:
+      return cache[key]
+    cache[key] = flds = {}
+    ci = self.ix.classes.get(member.cls)
+    init = self.ix.lookup_method(ci, "__init__") if ci is not None else None
+    if init is not None:
+      val = member.value
+      if isinstance(val, Sym):
+        # the value is built from calls (colours ...): evaluate the member's expression here
+        expr = dict(self.ix.enum_members(ci)).get(member.name)
+        anyf = next(iter(ci.methods.values()))
+        val = self.ev(expr, {}, anyf, depth + 1)
+      args = list(val) if isinstance(val, tuple) else [val]
+      self.call(init, [member] + args, None, {}, depth + 1)
+    return flds
+
+  def _class_regex(self, ci, name):
+    """a class-level `NAME = re.compile(<constant pattern>)`"""
+    import re as _re
+    from .regexrules import regex_bindings
+    cache = self.__dict__.setdefault("_rx_cls_cache", {})
+    key = ci.module.name
+    if key not in cache:
+      cache[key] = {k: v[0] for k, v in regex_bindings(self.ix, ci.module).items() if "::" not in k and "." in k}
+    for c in self.ix.mro(ci):
+      pat = cache[key].get(f"{c.name}.{name}") if c.module is ci.module else None
+      if pat is not None:
+        try:
+          return _re.compile(pat)
+        except _re.error:
+          raise Raised()
+    return None
 
   def _regex_constant(self, f, name):
     """a module-level `NAME = re.compile(<constant pattern>)`: the compiled pattern (the pattern text is a constant of the source)"""
@@ -532,6 +631,11 @@ class MiniEval:
         return base[e.attr]
       raise Raised()
     if isinstance(base, ClassInfo):
+      if e.attr == "__members__" and self.ix.is_enum(base):
+        return self._enum_table(base, f)
+      rx_ = self._class_regex(base, e.attr)
+      if rx_ is not None:
+        return rx_
       m = self.ix.lookup_method(base, e.attr)
       if m is not None:
         return ("closure", m, {})
@@ -544,6 +648,15 @@ class MiniEval:
         raise NotConst(f"class attribute {e.attr}")
     if isinstance(base, (Fraction, int)) and e.attr in ("numerator", "denominator"):
       return getattr(base, e.attr)
+    if isinstance(base, EnumMember) and e.attr not in ("name", "value"):
+      flds = self._enum_fields(base, depth)
+      if e.attr in flds:
+        return flds[e.attr]
+      ci_ = self.ix.classes.get(base.cls)
+      m_ = self.ix.lookup_method(ci_, e.attr) if ci_ is not None else None
+      if m_ is not None:
+        return ("closure", m_, {"__self__": base})
+      raise Raised()
     if isinstance(base, EnumMember):
       if e.attr == "name":
         return base.name
@@ -564,8 +677,36 @@ class MiniEval:
       raise Raised()
     raise NotConst(f"attribute {e.attr} of {type(base).__name__}")
 
+  _BUILTIN_TYPES = {"str": str, "int": int, "float": float, "bool": bool, "list": list, "tuple": tuple, "dict": dict, "set": set, "bytes": bytes, "Fraction": Fraction, "Number": (int, float, Fraction)}
+
   def call_expr(self, e, env, f, depth):
     fn = e.func
+    if isinstance(fn, ast.Name) and fn.id == "isinstance" and "isinstance" not in env and len(e.args) == 2:
+      spec_nodes = e.args[1].elts if isinstance(e.args[1], ast.Tuple) else [e.args[1]]
+      spec_nodes = [ast.Name(id="Number", ctx=ast.Load()) if unparse(s_) in ("numbers.Number", "numbers.Real", "numbers.Rational") else s_ for s_ in spec_nodes]
+      if any(isinstance(s_, ast.Name) and s_.id in self._BUILTIN_TYPES and s_.id not in env for s_ in spec_nodes):
+        v_ = self.ev(e.args[0], env, f, depth)
+        if isinstance(v_, (Node, EnumMember)) or (isinstance(v_, dict) and v_.get("__record__")) or v_ is None:
+          prim = False
+        elif isinstance(v_, (str, int, float, Fraction, list, tuple, dict, set, bytes)):
+          prim = any(isinstance(s_, ast.Name) and s_.id in self._BUILTIN_TYPES and isinstance(v_, self._BUILTIN_TYPES[s_.id]) and not (s_.id == "int" and False) for s_ in spec_nodes)
+        else:
+          raise NotConst("isinstance of an opaque value")
+        if prim:
+          return True
+        rest = [s_ for s_ in spec_nodes if not (isinstance(s_, ast.Name) and s_.id in self._BUILTIN_TYPES and s_.id not in env)]
+        if not rest:
+          return False
+        e = ast.Call(func=fn, args=[ast.Constant(value=None), ast.Tuple(elts=rest, ctx=ast.Load())], keywords=[])
+        specs_ = [self.ev(s_, env, f, depth) for s_ in rest]
+        if isinstance(v_, Node):
+          return self.kind_matches(v_, tuple(specs_))
+        names_ = {s_.name for s_ in specs_ if isinstance(s_, ClassInfo)}
+        if isinstance(v_, dict) and v_.get("__record__"):
+          return v_["__record__"] in names_
+        if isinstance(v_, EnumMember):
+          return any(isinstance(s_, ClassInfo) and s_.qualname == v_.cls for s_ in specs_)
+        return ("Number" in names_ and isinstance(v_, (int, Fraction, float))) or type(v_).__name__ in names_
     args = []
     for a in e.args:
       if isinstance(a, ast.Starred):
@@ -596,6 +737,18 @@ class MiniEval:
           return sorted(seq)
         except TypeError:
           raise NotConst("sorted() of sample nodes")
+      if b in ("map", "filter") and len(args) >= 2:
+        fn_ = args[0]
+        seqs = [self.iterate(a_) for a_ in args[1:]]
+        def _apply(*xs):
+          if isinstance(fn_, tuple) and fn_ and fn_[0] == "closure":
+            return self.call(fn_[1], list(xs), None, {k: v for k, v in fn_[2].items() if k != "__self__"}, depth + 1)
+          if fn_ is None and b == "filter":
+            return xs[0]
+          raise NotConst(f"{b}() with a callee outside the package")
+        if b == "map":
+          return [_apply(*xs) for xs in zip(*seqs)]
+        return [x for x in seqs[0] if self.truth(_apply(x))]
       if b == "dict":
         return dict(args[0]) if args else dict(kwargs)
       if b == "len":
@@ -608,6 +761,10 @@ class MiniEval:
         names = {s.name for s in specs if isinstance(s, ClassInfo)}
         if args[0] is None:
           return False
+        if isinstance(args[0], EnumMember):
+          return any(isinstance(s, ClassInfo) and s.qualname == args[0].cls for s in specs)
+        if isinstance(args[0], dict) and args[0].get("__record__"):
+          return args[0]["__record__"] in names
         if isinstance(args[0], (int, Fraction, str, list, tuple, dict, set)):
           return type(args[0]).__name__ in names or ("Number" in names and isinstance(args[0], (int, Fraction)))
         raise NotConst("isinstance of an opaque value")
@@ -654,6 +811,28 @@ class MiniEval:
       if fn.attr == "sub" and len(args) == 3 and all(isinstance(a, str) for a in args):
         return _re.sub(*args)
       raise NotConst(f"re.{fn.attr}")
+    # unbound methods of str and the pure functions of unicodedata, applied to constants
+    if isinstance(fn, ast.Attribute) and isinstance(fn.value, ast.Name) and fn.value.id in ("str", "unicodedata") and fn.value.id not in env:
+      if fn.value.id == "str" and hasattr(str, fn.attr) and not fn.attr.startswith("_") and fn.attr not in ("format_map", "maketrans"):
+        try:
+          return getattr(str, fn.attr)(*args)
+        except (TypeError, ValueError):
+          raise Raised()
+      if fn.value.id == "unicodedata" and fn.attr in ("normalize", "category", "combining", "name", "lookup", "decomposition") and all(isinstance(a, str) for a in args):
+        import unicodedata as _ud
+        try:
+          return getattr(_ud, fn.attr)(*args)
+        except (TypeError, ValueError, KeyError):
+          raise Raised()
+    # super().m(...): the next definition of m in the method resolution order of the enclosing class
+    if isinstance(fn, ast.Attribute) and isinstance(fn.value, ast.Call) and isinstance(fn.value.func, ast.Name) and fn.value.func.id == "super" and not fn.value.args \
+        and f.cls is not None and "super" not in self.opaque:
+      for c_ in self.ix.mro(f.cls)[1:]:
+        if fn.attr in c_.methods:
+          return self.call(c_.methods[fn.attr], [env.get("self", env.get("cls"))] + list(args), kwargs, {}, depth + 1)
+      if fn.attr == "__init__":
+        return None         # object.__init__ / Enum.__init__
+      raise NotConst(f"super().{fn.attr}")
     # callee value
     callee = None
     recv = None
@@ -666,6 +845,14 @@ class MiniEval:
       if recv is not NotConst:
         if isinstance(recv, Node):
           return self.node_call(recv, fn.attr, args, kwargs, f, depth)
+        if isinstance(recv, EnumMember):
+          ci_ = self.ix.classes.get(recv.cls)
+          m_ = self.ix.lookup_method(ci_, fn.attr) if ci_ is not None else None
+          if m_ is None:
+            raise NotConst(f"method {fn.attr} of an enumeration member")
+          if fn.attr != "__init__":
+            self._enum_fields(recv, depth)
+          return self.call(m_, ([recv] if not m_.is_static else []) + list(args), kwargs, {}, depth + 1)
         if isinstance(recv, list):
           return self._list_method(recv, fn.attr, args)
         import re as _re
@@ -692,10 +879,10 @@ class MiniEval:
               raise Raised()
           raise NotConst(f"match.{fn.attr}")
         if isinstance(recv, str):
-          if fn.attr in ("replace", "lower", "upper", "strip", "lstrip", "rstrip", "split", "startswith", "endswith", "join", "isspace", "isdigit", "find", "format", "splitlines", "zfill", "count", "index"):
+          if hasattr(str, fn.attr) and not fn.attr.startswith("_") and fn.attr not in ("format_map", "maketrans"):   # str is immutable: every method is a pure function
             try:
               return getattr(recv, fn.attr)(*args)
-            except (TypeError, ValueError):
+            except (TypeError, ValueError, IndexError, KeyError):
               raise Raised()
           raise NotConst(f"str.{fn.attr}")
         if isinstance(recv, set):
@@ -706,6 +893,13 @@ class MiniEval:
               raise Raised()
             return None
           raise NotConst(f"set.{fn.attr}")
+        if isinstance(recv, dict) and recv.get("__record__") and fn.attr not in ("get", "items", "keys", "values"):
+          # a method of the record's class, bound to the record
+          ci_ = next((c for c in self.ix.classes.values() if c.name == recv["__record__"]), None)
+          m_ = self.ix.lookup_method(ci_, fn.attr) if ci_ is not None else None
+          if m_ is None:
+            raise NotConst(f"method {fn.attr} of a record")
+          return self.call(m_, [recv] + list(args), kwargs, {}, depth + 1)
         if isinstance(recv, dict):
           if fn.attr in ("get", "items", "keys", "values", "setdefault", "pop", "update", "copy"):
             try:
@@ -717,7 +911,8 @@ class MiniEval:
         if isinstance(recv, ClassInfo):
           m = self.ix.lookup_method(recv, fn.attr)
           if m is not None:
-            callee = ("closure", m, {})
+            is_cm = any(unparse(d_) == "classmethod" for d_ in m.node.decorator_list)
+            callee = ("closure", m, {"__self__": recv} if is_cm else {})
         elif isinstance(recv, tuple) and recv and recv[0] == "closure":
           callee = recv
         elif isinstance(recv, Sym) or recv is None:
@@ -760,6 +955,16 @@ class MiniEval:
         n_.fields["text"] = args[1]
       self.trace.append(("new", n_, tuple(args)))
       return n_
+    if isinstance(callee, ClassInfo) and self.ix.is_enum(callee) and len(args) == 1 and not kwargs:
+      # Enum(value): the member with that value (or the member itself); ValueError otherwise
+      if isinstance(args[0], EnumMember) and args[0].cls == callee.qualname:
+        return args[0]
+      for m_ in self._enum_table(callee, f).values():
+        if isinstance(m_.value, Sym):
+          raise NotConst("enum look-up by value among opaque values")
+        if type(m_.value) is type(args[0]) and m_.value == args[0]:
+          return m_
+      raise Raised()
     if isinstance(callee, ClassInfo):
       # a record (NamedTuple / dataclass of the package) built from sample values
       fields = list(callee.field_order) or list(callee.ann)
